@@ -15,6 +15,7 @@ type gemmCase struct {
 	bs, m, n, k, procs int
 	tA, tB             blas.Transpose
 	single             bool
+	inexact            bool // non-dyadic values: rounding depends on the reduction order, so only bit-identity across schedules and GOMAXPROCS is checked
 }
 
 func tname(t blas.Transpose) string {
@@ -38,21 +39,24 @@ func genDgemm(g *vlib.G) {
 			for _, tA := range trs {
 				for _, tB := range trs {
 					for _, single := range []bool{false, true} {
-						cases = append(cases, gemmCase{sh.bs, sh.m, sh.n, sh.k, procs, tA, tB, single})
+						cases = append(cases, gemmCase{sh.bs, sh.m, sh.n, sh.k, procs, tA, tB, single, false})
+						if sh.k >= 3 {
+							cases = append(cases, gemmCase{sh.bs, sh.m, sh.n, sh.k, procs, tA, tB, single, true})
+						}
 					}
 				}
 			}
 		}
 	}
 	// stock block size: shapes straddling 64/128 (4 and 6 blocks)
-	stock := []shape{{0, 65, 65, 1}, {0, 65, 129, 3}}
+	stock := []shape{{0, 65, 65, 1}, {0, 65, 129, 3}, {0, 65, 65, 66}}
 	if g.Thorough() {
 		stock = append(stock, shape{0, 128, 129, 65}, shape{0, 129, 65, 2})
 	}
 	for _, sh := range stock {
 		for _, procs := range []int{1, 2, 4} {
-			cases = append(cases, gemmCase{sh.bs, sh.m, sh.n, sh.k, procs, blas.NoTrans, blas.Trans, false})
-			cases = append(cases, gemmCase{sh.bs, sh.m, sh.n, sh.k, procs, blas.Trans, blas.NoTrans, true})
+			cases = append(cases, gemmCase{sh.bs, sh.m, sh.n, sh.k, procs, blas.NoTrans, blas.Trans, false, sh.k > 1})
+			cases = append(cases, gemmCase{sh.bs, sh.m, sh.n, sh.k, procs, blas.Trans, blas.NoTrans, true, sh.k > 1})
 		}
 	}
 	for _, c := range cases {
@@ -61,7 +65,11 @@ func genDgemm(g *vlib.G) {
 		if c.single {
 			prec = "S"
 		}
-		g.Case(fmt.Sprintf("%sgemm bs=%d m=%d n=%d k=%d tA=%s tB=%s procs=%d", prec, c.bs, c.m, c.n, c.k, tname(c.tA), tname(c.tB), c.procs), func(t *vlib.T) {
+		val := "exact"
+		if c.inexact {
+			val = "inexact"
+		}
+		g.Case(fmt.Sprintf("%sgemm bs=%d m=%d n=%d k=%d tA=%s tB=%s procs=%d values=%s", prec, c.bs, c.m, c.n, c.k, tname(c.tA), tname(c.tB), c.procs, val), func(t *vlib.T) {
 			runGemm(t, g, c)
 		})
 	}
@@ -96,6 +104,14 @@ func runGemm(t *vlib.T, g *vlib.G, c gemmCase) {
 	}
 	for i := range c0 {
 		c0[i] = float64((i*3)%4 - 1)
+	}
+	if c.inexact {
+		for i := range a {
+			a[i] = 0.1*float64(i%11) + 1.0/3
+		}
+		for i := range b {
+			b[i] = 0.7*float64(i%13) - 1.0/7
+		}
 	}
 	at := func(i, l int) float64 {
 		if c.tA == blas.NoTrans {
@@ -144,6 +160,9 @@ func runGemm(t *vlib.T, g *vlib.G, c gemmCase) {
 	vrt.Procs = c.procs
 	if c.single {
 		for i := range want {
+			if c.inexact {
+				break
+			}
 			if float32(want[i]) != got32[i] {
 				t.Failf("C[%d]=%v, the definition gives %v", i, got32[i], want[i])
 				return
@@ -152,6 +171,9 @@ func runGemm(t *vlib.T, g *vlib.G, c gemmCase) {
 		copy(want32, got32)
 	} else {
 		for i := range want {
+			if c.inexact {
+				break
+			}
 			if want[i] != got[i] {
 				t.Failf("C[%d]=%v, the definition gives %v", i, got[i], want[i])
 				return
